@@ -375,15 +375,31 @@ class St:
 
 def rand_scalar(rng, kind=None):
     if kind is None and rng.random() < 0.2:
-        return rng.choice(FALSY[:4])
-    kind = kind or rng.choice("iiissbn")
+        return rng.choice([x for x in FALSY if is_scalar(x)])
+    kind = kind or rng.choice("iiissbntf#")
+    if kind == "#":                 # a number of any of the three types, small so that equal ones meet
+        return rng.choice(NUMS)
     if kind == "i":
         return I(rng.randint(-1, 4))
+    if kind == "t":
+        return T(rng.random() < 0.5)
+    if kind == "f":
+        return F(rng.choice([0, 0, 1, 2, 2, 3, 4, -2, 6]))
     if kind == "s":
         return S(rng.choice(STRS))
     if kind == "b":
         return B(rng.choice(BYTESS))
     return NONE
+
+
+def rand_numkey(rng, k):
+    """the dict key k as an int, or as the bool / float that is the same key"""
+    r = rng.random()
+    if r < 0.6:
+        return I(k)
+    if r < 0.8 or k > 1:
+        return F(2 * k)
+    return T(k == 1)
 
 
 def rand_plain(rng, d=2):
@@ -393,14 +409,14 @@ def rand_plain(rng, d=2):
     if d == 0 or r < 0.45:
         return rand_scalar(rng)
     if r < 0.75:
-        kind = rng.choice(["i", "i", "s", "b", None])
+        kind = rng.choice(["i", "i", "s", "b", "#", "#", None])
         return L([rand_scalar(rng, kind) if kind else rand_plain(rng, d - 1) for _ in range(rng.randint(0, 4))])
     if r < 0.93:
-        ks = rng.sample(["a", "b", "c", "d"], rng.randint(0, 3)) if rng.random() < 0.7 else None
+        ks = rng.sample(["a", "b", "c", "d"], rng.randint(0, 3)) if rng.random() < 0.65 else None
         if ks is None:
-            return D([[I(k), rand_plain(rng, d - 1)] for k in rng.sample([0, 1, 2, 3], rng.randint(0, 3))])
+            return D([[rand_numkey(rng, k), rand_plain(rng, d - 1)] for k in rng.sample([0, 1, 2, 3], rng.randint(0, 3))])
         return D([[S(k), rand_plain(rng, d - 1)] for k in ks])
-    return rng.choice(RECS)
+    return rng.choice(RECS + [REC_EMPTY])
 
 
 ARGS = [[], [S("a")], [S("k")], [I(1)], [S("a"), I(1)], [S("abc")], [L([I(1)])], [S("")], [I(0)], [NONE], [L([])]]
@@ -417,15 +433,21 @@ def rand_value(rng):
     return RAISE(rng.choice([1, 2, 2, 4, 7, 7, 5, 6, 8]), rng.choice(ARGS))
 
 
-TYS = ["int", "str", "bytes", "none", "list", "dict", "rec", "object", "tuple", "func", ["exc", 0], ["exc", 1],
+TYS = ["int", "bool", "float", "str", "bytes", "none", "list", "dict", "rec", "object", "tuple", "func", ["exc", 0], ["exc", 1],
        ["exc", 2], ["exc", 3], ["exc", 7], ["exc", 5]]
 
 
 def near(rng, vals, fallback):
-    """a reference value likely to be related to the values matched"""
+    """a reference value likely to be related to the values matched: one of them, or one == it of another type"""
     if vals and rng.random() < 0.6:
-        return rng.choice(vals)
+        v = rng.choice(vals)
+        return twin(rng, v) if rng.random() < 0.3 else v
     return fallback()
+
+
+def succ(v):
+    """x + 1 as Python computes it on int / bool / float"""
+    return I(v[1] + 1) if v[0] == "i" else I(2 if v[1] else 1) if v[0] == "t" else F(v[1] + 2)
 
 
 def gm(rng, d, vals, st, top=False):
@@ -457,7 +479,8 @@ def gm(rng, d, vals, st, top=False):
     # Contains: needle in matchee; a TypeError is a mismatch
     def contains():
         if "b" in shapes:
-            n = rng.choice([I(rng.choice([0, 97, 98, 255])), B(rng.choice(BYTESS)), S("a")])
+            n = rng.choice([I(rng.choice([0, 97, 98, 255])), B(rng.choice(BYTESS)), S("a"), T(rng.random() < 0.5),
+                            F(rng.choice([0, 2, 194]))])
         elif "s" in shapes:
             n = rng.choice([S(rng.choice(STRS)), I(1), B(b"a")])
         elif "l" in shapes:
@@ -470,10 +493,11 @@ def gm(rng, d, vals, st, top=False):
             n = rand_scalar(rng)
         return ["Contains", n]
     add(lw, contains)
-    if shapes and shapes <= {"i"}:
-        add(2 * lw, lambda: [rng.choice(["LessThan", "GreaterThan"]), I(rng.randint(-1, 4))])
+    if shapes and shapes <= set(NUM_KINDS):
+        add(2 * lw, lambda: [rng.choice(["LessThan", "GreaterThan"]),
+                             I(rng.randint(-1, 4)) if shapes <= {"i"} and rng.random() < 0.7 else rng.choice(NUMS)])
         if d > 0:
-            add(1, lambda: ["AfterPreprocessing", 4, rng.random() < 0.5, gm(rng, d - 1, [I(v[1] + 1) for v in vals], st)])
+            add(1, lambda: ["AfterPreprocessing", 4, rng.random() < 0.5, gm(rng, d - 1, [succ(v) for v in vals], st)])
     if shapes and shapes <= {"s"}:
         add(lw, lambda: [rng.choice(["LessThan", "GreaterThan"]), S(rng.choice(STRS))])
         add(2 * lw, lambda: [rng.choice(["StartsWith", "EndsWith"]), S(rng.choice(STRS)[:2] if rng.random() < 0.5
@@ -497,6 +521,8 @@ def gm(rng, d, vals, st, top=False):
                 rng.shuffle(base)
                 if base and rng.random() < 0.3:
                     base[rng.randrange(len(base))] = rand_scalar(rng)
+                if rng.random() < 0.3:
+                    base = [twin(rng, x) if rng.random() < 0.6 else x for x in base]
                 return ["SameMembers", base]
             add(2 * lw, same)
         if d > 0:
@@ -518,17 +544,19 @@ def gm(rng, d, vals, st, top=False):
             add(1, lambda: ["AfterPreprocessing", 5, rng.random() < 0.5, gm(rng, d - 1, [L(v[1][::-1]) for v in vals], st)])
     if shapes and shapes <= {"d"}:
         keys = [k for v in vals for k, _ in v[1]]
-        kinds = set(k[0] for k in keys)
+        kinds = set(knorm(k)[0] for k in keys)          # 's' or 'i': ints, bools and floats sort together
         if len(kinds) <= 1:
             kind = (list(kinds) or ["s"])[0]
 
             def keyseq():
                 base = [k for k, _ in rng.choice(vals)[1]] if rng.random() < 0.7 else []
-                extra = S(rng.choice("abcd")) if kind == "s" else I(rng.randint(0, 3))
+                extra = S(rng.choice("abcd")) if kind == "s" else rand_numkey(rng, rng.randint(0, 3))
                 if rng.random() < 0.4:
                     base = base + [extra]
                 if base and rng.random() < 0.2:
                     base = base[1:]
+                if rng.random() < 0.3:
+                    base = [twin(rng, k) if k[0] in NUM_KINDS else k for k in base]
                 rng.shuffle(base)
                 return ["KeysEqual", base]
             add(2 * lw, keyseq)
@@ -536,12 +564,15 @@ def gm(rng, d, vals, st, top=False):
             def dictm():
                 ks = []
                 for k in keys + [S("zz"), I(9)]:
-                    if k not in ks and rng.random() < 0.6:
+                    if knorm(k) not in [knorm(x) for x in ks] and rng.random() < 0.6:
                         ks.append(k)
                 rng.shuffle(ks)
                 ks = ks[:3]
+                # the matcher may name a key by another value that is the same key (1 / True / 1.0)
                 return [rng.choice(["MatchesDict", "ContainsDict", "ContainedByDict"]),
-                        [[k, gm(rng, d - 1, [x for v in vals for kk, x in v[1] if kk == k], st)] for k in ks]]
+                        [[twin(rng, k) if k[0] in NUM_KINDS and rng.random() < 0.3 else k,
+                          gm(rng, d - 1, [x for v in vals for kk, x in v[1] if knorm(kk) == knorm(k)], st)]
+                         for k in ks]]
             add(5, dictm)
             add(1, lambda: ["AfterPreprocessing", 6, rng.random() < 0.5,
                             gm(rng, d - 1, [L([x for _, x in v[1]]) for v in vals], st)])
@@ -602,21 +633,31 @@ def setwise_special(rng):
 
 def dict_special(rng):
     """dict matchers whose verdict is decided by the key sets alone: every per-key matcher matches, values are
-    mostly falsy (0, '', b'', None, [], {}) under common, surplus and missing keys"""
-    keys = rng.sample(["a", "b", "c", "z"], rng.randint(0, 4))
-    obs = [[S(k), rng.choice(FALSY) if rng.random() < 0.75 else rand_plain(rng, 1)] for k in keys]
-    mkeys = [k for k in keys if rng.random() < 0.6] + [k for k in ["a", "b", "m"] if k not in keys and rng.random() < 0.25]
+    mostly falsy (0, False, 0.0, '', b'', None, [], {}) under common, surplus and missing keys; in a third of the
+    cases the keys are numbers and matcher and matchee name the same key by different values (1 / True / 1.0)"""
+    numeric = rng.random() < 0.35
+    if numeric:
+        keys = [rand_numkey(rng, k) for k in rng.sample([0, 1, 2, 7], rng.randint(0, 4))]
+        spare = [rand_numkey(rng, k) for k in (0, 1, 5)]
+    else:
+        keys = [S(k) for k in rng.sample(["a", "b", "c", "z"], rng.randint(0, 4))]
+        spare = [S("a"), S("b"), S("m")]
+    obs = [[k, rng.choice(FALSY) if rng.random() < 0.75 else rand_plain(rng, 1)] for k in keys]
+    have = [knorm(k) for k in keys]
+    mkeys = [k for k in keys if rng.random() < 0.6] + [k for k in spare if knorm(k) not in have and rng.random() < 0.25]
     rng.shuffle(mkeys)
-    vals = dict((k[1], v) for k, v in obs)
+    vals = dict((knorm(k), v) for k, v in obs)
     kms = []
     for k in mkeys:
-        if k in vals and is_plain(vals[k]):
-            sub = rng.choice([["Equals", vals[k]], ["Always"], ["Not", ["Never"]], ["IsInstance", ["object"]]])
+        x = vals.get(knorm(k))
+        if x is not None and is_plain(x):
+            sub = rng.choice([["Equals", x], ["Equals", twin(rng, x)], ["Always"], ["Not", ["Never"]],
+                              ["IsInstance", ["object"]]])
             if rng.random() < 0.15:
-                sub = rng.choice([["NotEquals", vals[k]], ["Never"]])
+                sub = rng.choice([["NotEquals", x], ["Never"]])
         else:
             sub = rng.choice([["Always"], ["Never"]])
-        kms.append([S(k), sub])
+        kms.append([twin(rng, k) if numeric and rng.random() < 0.5 else k, sub])
     m = [rng.choice(["MatchesDict", "ContainsDict", "ContainedByDict"]), kms]
     v = D(obs)
     r = rng.random()
@@ -626,7 +667,114 @@ def dict_special(rng):
         m, v = ["AllMatch", m], L([v, D(obs[:1])])
     elif r < 0.4:
         m = ["MatchesAll", rng.random() < 0.5, [["IsInstance", ["dict"]], m]]
+    elif r < 0.5 and not numeric:
+        # the same verdict one level down: the dict sits under a key of an outer dict
+        m, v = [rng.choice(["MatchesDict", "ContainsDict", "ContainedByDict"]), [[S("k"), m]]], D([[S("k"), v]])
     return m, v
+
+
+def struct_special(rng):
+    """MatchesStructure over objects whose attribute values are mostly falsy (0, False, 0.0, '', b'', None, [], {}):
+    per-attribute matchers that match or mismatch on exactly that value; also objects without attributes"""
+    n = rng.choice([0, 1, 2, 2, 3, 4])
+    attrs = [[a, rng.choice(FALSY) if rng.random() < 0.8 else rand_plain(rng, 1)] for a in range(n)]
+    ams = []
+    for a, x in attrs:
+        if rng.random() < 0.75:
+            if is_plain(x):
+                sub = rng.choice([["Equals", x], ["Equals", twin(rng, x)], ["Always"], ["Not", ["Never"]],
+                                  ["IsInstance", ["object"]], ["Not", ["Is", RECS[0]]]])
+                if rng.random() < 0.3:
+                    sub = rng.choice([["NotEquals", x], ["Never"], ["Is", RECS[0]], ["Not", ["Equals", x]],
+                                      ["Equals", rng.choice([y for y in FALSY + [I(1)]])]])
+            else:
+                sub = rng.choice([["Always"], ["Never"]])
+            ams.append([a, sub])
+    rng.shuffle(ams)
+    m, v = ["MatchesStructure", ams], ["r", 20 + rng.randrange(4), attrs]
+    r = rng.random()
+    if r < 0.15:
+        m = ["Not", m]
+    elif r < 0.3:
+        m, v = ["AllMatch", m], L([v])
+    elif r < 0.4:
+        m, v = ["MatchesDict", [[S("o"), m]]], D([[S("o"), v]])
+    return m, v
+
+
+def nested_special(rng):
+    """a combinator that inspects the verdicts of its children, directly over children whose mismatch is an
+    unusual object (a MismatchesAll without children from AnyMatch over [] or MatchesAny(), DictMismatches,
+    annotated / prefixed mismatches, MatchedUnexpectedly ...), applied to containers that are often empty"""
+    rid = [8]                   # every object built here gets its own identity
+
+    def elem():
+        return L([I(rng.choice([0, 1, 1, 2])) for _ in range(rng.choice([0, 0, 0, 1, 1, 2]))])
+
+    def inner(x):
+        e = ["Equals", I(rng.choice([0, 1, 1, 2]))]
+        c = rng.choice([
+            ["AnyMatch", e], ["AnyMatch", e], ["AllMatch", e], ["AnyMatch", ["Never"]], ["AllMatch", ["Never"]],
+            ["MatchesAny", []], ["MatchesAll", rng.random() < 0.5, []], ["MatchesAny", [["AnyMatch", e]]],
+            ["MatchesAll", rng.random() < 0.5, [["AnyMatch", e]]], ["MatchesListwise", rng.random() < 0.5, []],
+            ["MatchesListwise", rng.random() < 0.5, [e] * len(x[1])], ["MatchesSetwise", 0, []],
+            ["MatchesSetwise", 0, [e][:len(x[1])]], ["HasLength", rng.choice([0, 1])], ["Equals", L([])],
+            ["Not", ["Equals", L([])]], ["Not", ["AnyMatch", e]], ["Annotate", 0, ["AnyMatch", e]],
+            ["AfterPreprocessing", 0, rng.random() < 0.5, ["AnyMatch", e]], ["Contains", I(1)], ["SameMembers", []],
+            ["AfterPreprocessing", 1, rng.random() < 0.5, ["Equals", I(0)]], ["Always"], ["Never"],
+            ["AfterPreprocessing", 3, False, ["AnyMatch", ["AnyMatch", e]]],
+        ])
+        return c
+
+    def outer(lvl):
+        """(matcher, value) with children built by inner() / outer(lvl - 1)"""
+        def child():
+            if lvl > 0 and rng.random() < 0.5:
+                return outer(lvl - 1)
+            x = elem()
+            return inner(x), x
+        kind = rng.choice(["AllMatch", "AnyMatch", "Listwise", "Setwise", "MatchesDict", "ContainsDict",
+                           "ContainedByDict", "Structure", "Not", "All", "Any", "Annotate", "Pre"])
+        if kind in ("AllMatch", "AnyMatch"):
+            m, x = child()
+            xs = [x] + ([elem() for _ in range(rng.randint(0, 2))] if x[0] == "l" and m[0] not in
+                        ("MatchesListwise", "MatchesSetwise") and all(y[0] == "i" for y in x[1]) and lvl == 0 else [])
+            rng.shuffle(xs)
+            return [kind, m], L(xs)
+        if kind == "Listwise":
+            cs = [child() for _ in range(rng.randint(0, 3))]
+            return ["MatchesListwise", rng.random() < 0.4, [c for c, _ in cs]], L([x for _, x in cs])
+        if kind == "Setwise":
+            cs = [child() for _ in range(rng.randint(0, 1))]
+            return ["MatchesSetwise", 0, [c for c, _ in cs]], L([x for _, x in cs])
+        if kind in ("MatchesDict", "ContainsDict", "ContainedByDict"):
+            cs = [child() for _ in range(rng.randint(0, 3))]
+            ks = rng.sample(["a", "b", "c", "d"], len(cs))
+            obs = [[S(k), x] for k, (_, x) in zip(ks, cs)]
+            if rng.random() < 0.3:
+                obs.append([S("z"), rng.choice(FALSY)])
+            kms = [[S(k), c] for k, (c, _) in zip(ks, cs)]
+            if rng.random() < 0.2:
+                kms.append([S("m"), ["Always"]])
+            rng.shuffle(obs)
+            return [kind, kms], D(obs)
+        if kind == "Structure":
+            cs = [child() for _ in range(rng.randint(0, 3))]
+            rid[0] += 1
+            return (["MatchesStructure", [[a, c] for a, (c, _) in enumerate(cs)]],
+                    ["r", rid[0], [[a, x] for a, (_, x) in enumerate(cs)]])
+        m, x = child()
+        if kind == "Not":
+            return ["Not", m], x
+        if kind == "All":
+            return ["MatchesAll", rng.random() < 0.5, [["Always"], m][::rng.choice([1, -1])]], x
+        if kind == "Any":
+            return ["MatchesAny", [["Never"], m][::rng.choice([1, -1])]], x
+        if kind == "Annotate":
+            return ["Annotate", 1, m], x
+        return ["AfterPreprocessing", 3, rng.random() < 0.5, ["AllMatch", m]], x
+    m, v = outer(rng.choice([0, 0, 1, 1, 2]))
+    return renumber(m, [0]), v
 
 
 F13_WITNESS = {"m": ["MatchesSetwise", 0, [["MatchesAny", [["Equals", I(1)], ["Equals", I(2)]]], ["Equals", I(1)]]],
@@ -669,23 +817,61 @@ def generate(rng, tier):
         (["Raises", None], RET(I(0))), (["Raises", None], RET(NONE)),
         (["AfterPreprocessing", 1, True, ["Equals", I(0)]], S("")),
         (["MatchesException", False, [2], [], ["AfterPreprocessing", 2, True, ["Equals", L([S("a")])]]], X(7, [S("a")])),
+        # False and 0.0 under surplus / common / missing keys; 1, True and 1.0 are one key and one value
+        (["MatchesDict", [[S("a"), ["Equals", I(1)]]]], D([[S("a"), I(1)], [S("zzz"), T(False)]])),
+        (["ContainedByDict", [[S("a"), ["Equals", I(1)]]]], D([[S("zzz"), F(0)]])),
+        (["MatchesDict", [[S("a"), ["Equals", T(True)]]]], D([[S("a"), F(2)]])),
+        (["MatchesDict", [[I(1), ["Always"]]]], D([[T(True), I(0)]])),
+        (["ContainedByDict", [[F(0), ["Never"]]]], D([[T(False), T(False)]])),
+        (["ContainsDict", [[T(True), ["Equals", F(0)]], [I(0), ["Equals", L([])]]]], D([[I(1), T(False)], [F(0), L([])]])),
+        (["MatchesDict", [[I(1), ["Always"]]]], D([[T(True), I(0)], [I(2), T(False)]])),
+        (["KeysEqual", [T(True), I(0)]], D([[F(0), I(1)], [I(1), I(2)]])),
+        (["KeysEqual", [T(True), I(1)]], D([[I(1), I(2)]])),
+        (["Equals", D([[I(1), L([T(True)])]])], D([[T(True), L([F(2)])]])),
+        (["Equals", I(1)], T(True)), (["Equals", F(2)], T(True)), (["NotEquals", F(0)], T(False)),
+        (["Equals", T(False)], NONE), (["Is", NONE], T(False)), (["IsInstance", ["int"]], T(True)),
+        (["IsInstance", ["bool"]], I(1)), (["IsInstance", ["float", "bool"]], F(2)), (["LessThan", T(True)], F(1)),
+        (["GreaterThan", F(1)], T(True)), (["Contains", T(True)], B(b"\x01")), (["Contains", F(2)], B(b"\x01")),
+        (["Contains", T(True)], L([F(2)])), (["Contains", F(0)], D([[T(False), I(1)]])), (["Contains", F(1)], D([[I(0), I(1)]])),
+        (["SameMembers", [I(1), T(True), F(0)]], L([F(2), T(False), F(2)])),
+        (["SameMembers", [I(1), T(True), F(0)]], L([F(2), T(False), F(0)])),
+        (["AllMatch", ["Equals", I(0)]], L([T(False), F(0), I(0)])), (["AnyMatch", ["IsInstance", ["bool"]]], L([I(0), F(2)])),
+        (["MatchesListwise", False, [["Equals", I(1)], ["Equals", I(1)]]], L([T(True), F(2)])),
+        (["MatchesSetwise", 0, [["IsInstance", ["bool"]], ["IsInstance", ["float"]]]], L([F(2), T(True)])),
+        (["MatchesStructure", [[0, ["Equals", I(0)]], [3, ["Is", NONE]]]], RECS[5]),
+        (["MatchesStructure", [[0, ["Equals", T(True)]], [3, ["Equals", I(1)]]]], RECS[6]),
+        (["MatchesStructure", []], REC_EMPTY), (["Not", ["MatchesStructure", []]], REC_EMPTY),
+        (["AfterPreprocessing", 4, False, ["Equals", I(2)]], T(True)), (["AfterPreprocessing", 4, True, ["Equals", I(1)]], F(0)),
+        (["Raises", None], RET(T(False))), (["Raises", None], RET(F(0))),
+        (["MatchesException", True, [2], [T(True)], None], X(2, [I(1)])),
+        # empty containers one level down
+        (["AllMatch", ["AnyMatch", ["Equals", I(1)]]], L([L([I(1)]), L([])])),
+        (["AnyMatch", ["AnyMatch", ["Equals", I(1)]]], L([L([])])),
+        (["MatchesListwise", False, [["AnyMatch", ["Equals", I(1)]]]], L([L([])])),
+        (["MatchesDict", [[S("k"), ["AnyMatch", ["Equals", I(1)]]]]], D([[S("k"), L([])]])),
+        (["ContainsDict", [[S("k"), ["MatchesAny", []]]]], D([[S("k"), I(0)]])),
+        (["ContainedByDict", [[S("k"), ["MatchesDict", []]]]], D([[S("k"), D([[S("x"), I(0)]])]])),
+        (["MatchesStructure", [[2, ["AnyMatch", ["Always"]]]]], RECS[4]),
+        (["MatchesSetwise", 0, [["AnyMatch", ["Always"]]]], L([L([])])),
+        (["Not", ["AllMatch", ["AnyMatch", ["Equals", I(1)]]]], L([L([])])),
     ]
     for m, v in fixed:
         cases.append(mk_case(m, v))
     # exhaustive to depth 1 over the full leaf sets (every family), strided in the quick tier
     d1 = []
-    for fam in ("INT", "STR", "BYTES", "LIST_INT", "LIST_STR", "DICT", "REC", "EXC", "CALLU", "FALSY"):
+    for fam in ("INT", "STR", "BYTES", "LIST_INT", "LIST_STR", "DICT", "REC", "EXC", "CALLU", "FALSY", "NUM", "LIST_NUM",
+                "DICT_NUM", "DICT_LIST", "LIST_LIST"):
         d1 += list(enum_cases(fam, 1, None))
     for e in [["Raises", None]] + [["Raises", x] for x in enum("EXC", 1, 4)]:
         d1 += [(e, v) for v in CALL_ALL]
-    stride = max(1, len(d1) // 2600) if quick else 1
+    stride = max(1, len(d1) // 2800) if quick else 1
     off = rng.randrange(stride)
     for k, (m, v) in enumerate(d1):
         if k % stride == off:
             cases.append(mk_case(m, v, ENUM_LEAFDEFS))
     # exhaustive to depth 2 over three leaves per family (subsampled in the quick tier)
     d2 = []
-    for fam in ("INT", "LIST_INT", "DICT"):
+    for fam in ("INT", "LIST_INT", "DICT", "DICT_NUM", "DICT_LIST", "LIST_LIST"):
         d2 += list(enum_cases(fam, 2, 3))
     want = 900 if quick else 60000
     stride = max(1, len(d2) // want)
@@ -694,12 +880,20 @@ def generate(rng, tier):
         if k % stride == off:
             cases.append(mk_case(m, v, ENUM_LEAFDEFS))
     # MatchesSetwise around the finding
-    for _ in range(300 if quick else 4000):
+    for _ in range(250 if quick else 4000):
         m, v = setwise_special(rng)
         cases.append(mk_case(m, v))
-    # dict matchers decided by their key sets, falsy values everywhere
-    for _ in range(400 if quick else 5000):
+    # dict matchers decided by their key sets, falsy values everywhere, keys that collide across types
+    for _ in range(450 if quick else 6000):
         m, v = dict_special(rng)
+        cases.append(mk_case(m, v))
+    # MatchesStructure over falsy attribute values
+    for _ in range(200 if quick else 3000):
+        m, v = struct_special(rng)
+        cases.append(mk_case(m, v))
+    # verdict-inspecting combinators over children with unusual mismatch objects, empty containers
+    for _ in range(400 if quick else 6000):
+        m, v = nested_special(rng)
         cases.append(mk_case(m, v))
     # random, depth <= 4
     for _ in range(1800 if quick else 40000):
@@ -742,8 +936,10 @@ def shrink(case):
             yield again([k, m[1][:i] + m[1][i + 1:]], v)
         for kk, c in m[1]:
             for k2, x in v[1]:
-                if k2 == kk:
+                if knorm(k2) == knorm(kk):
                     yield again(c, x)
+        for i in range(len(v[1])):
+            yield again(m, D(v[1][:i] + v[1][i + 1:]))
     if k == "MatchesStructure" and v[0] == "r":
         for i in range(len(m[1])):
             yield again([k, m[1][:i] + m[1][i + 1:]], v)
